@@ -37,6 +37,7 @@ ASSUMPTIONS = [
     "tolerances: s >= -1e-13, |sum s - 1| <= 1e-12, |y_j sum_k s_k rho_k - s_j rho_j| <= 1e-12 * max rho "
     "(measured floor 2e-16); chain rule 1e-12 * max|exact| (floor 1e-16), complex-step comparison 1e-10",
     "inputs are float64 arrays; error paths (shape mismatches) are not part of the statement",
+    "purity: the argument arrays of all three functions are unchanged after the call",
 ]
 BOUNDS = {
     "quick": "saturations: 1-3 phases (1 + 7*16 + 28*64 points) vectorised and column-wise; chain rule: 2-3 "
@@ -118,8 +119,12 @@ def _run_sat(case, out):
         rho = np.array((RHO[case["rho0"]],) + rest)
         R = np.tile(rho.reshape((-1, 1)), (1, N))
         try:
-            S = compute_saturations(Y.copy(), R.copy())
-            if not isinstance(S, np.ndarray) or S.shape != Y.shape:
+            Yin, Rin = Y.copy(), R.copy()
+            S = compute_saturations(Yin, Rin)
+            if not (np.array_equal(Yin, Y) and np.array_equal(Rin, R)):
+                out.violate("compute_saturations modified its arguments", rho=rho)
+                out.ev("VIOLATION", None, N)
+            elif not isinstance(S, np.ndarray) or S.shape != Y.shape:
                 out.violate("compute_saturations returned a malformed array", shape=np.shape(S), rho=rho)
                 out.ev("VIOLATION", None, N)
             else:
@@ -204,9 +209,12 @@ def _run_chain(case, out):
                 except Exception as e:
                     out.violate("chain rule raised", error=repr(e), x=x, unit_vector=k, leading=ny)
             try:
-                got2 = chain(E.T.copy(), np.tile(x.reshape((-1, 1)), (1, m))).T  # row k <-> unit vector k
+                Ein, Xin = E.T.copy(), np.tile(x.reshape((-1, 1)), (1, m))
+                got2 = chain(Ein, Xin).T  # row k <-> unit vector k
                 if got2.shape != (m, m):
                     raise ValueError(f"result has shape {got2.shape}")
+                if not (np.array_equal(Ein, E.T) and np.array_equal(Xin, np.tile(x.reshape((-1, 1)), (1, m)))):
+                    out.violate("vectorised chain rule modified its arguments", x=x, leading=ny)
             except Exception as e:
                 out.violate("vectorised chain rule raised", error=repr(e), x=x, leading=ny)
                 got2 = np.full((m, m), np.nan)
